@@ -1,4 +1,452 @@
-//! vintro: engine for C17 (stub)
+//! vintro: engine for property C17 — "Introspection is self-consistent and navigation never
+//! panics".
+//!
+//! Two bounded exhaustive explorations on the real `savefile::Introspect` implementations
+//! (library types, `#[derive(Savefile)]` output) and the real `savefile::Introspector`:
+//!   (a) walk.rs  — every node (depth <= 4) of the introspection tree of every enumerated value
+//!                  of every family type, plus hand-written objects;
+//!   (b) nav.rs   — breadth-first search over all `Introspector` command sequences up to a depth
+//!                  on the hand-written objects, from `new()` and `new_with(0..=3)`.
+mod nav;
+mod objects;
+mod reg;
+mod typing;
+mod valjson;
+mod walk;
+
+use rayon::prelude::*;
+use std::collections::{BTreeMap, BTreeSet};
+use typing::TN;
+use vcommon::serde_json::{json, Map, Value};
+use vcommon::{guarded, machinery_error, parse_args, tags, Run, Tier, Violation};
+
+const STRUCT_DEPTH: usize = 4;
+
+#[derive(Default)]
+struct StructTotals {
+    roots: u64,
+    types: u64,
+    nodes: u64,
+    nodes_with_children: u64,
+    nodes_consistent: u64,
+    transitions: u64,
+    max_children: usize,
+    max_depth_seen: usize,
+    depth_cut_nodes: u64,
+    by_kind: BTreeMap<String, (u64, u64)>,
+    findings_by_oracle: BTreeMap<String, u64>,
+    samples: Vec<Value>,
+}
+impl StructTotals {
+    fn add(&mut self, r: &walk::WalkReport) {
+        self.roots += 1;
+        self.nodes += r.nodes as u64;
+        self.nodes_with_children += r.nodes_with_children as u64;
+        self.nodes_consistent += r.nodes_consistent;
+        self.transitions += r.transitions;
+        self.max_children = self.max_children.max(r.max_children);
+        self.max_depth_seen = self.max_depth_seen.max(r.max_depth_seen);
+        self.depth_cut_nodes += r.depth_cut_nodes;
+        for (k, v) in &r.by_kind {
+            let e = self.by_kind.entry(k.clone()).or_insert((0, 0));
+            e.0 += v.0;
+            e.1 += v.1;
+        }
+        for f in &r.findings {
+            *self.findings_by_oracle.entry(f.oracle.to_string()).or_insert(0) += 1;
+        }
+    }
+}
+
+fn struct_violation(f: &walk::RawFinding, source: &str, what: &str, mut case: Value) -> Violation {
+    case["path"] = json!(f.path);
+    Violation {
+        oracle: f.oracle.to_string(),
+        tags: tags(&[
+            ("exploration", "structural".to_string()),
+            ("node_type", f.node_type.clone()),
+            ("relation", f.relation.clone()),
+            ("wrappers", f.wrappers.join(",")),
+            ("source", source.to_string()),
+        ]),
+        summary: format!("{} node at path {:?} of {}: {}", f.node_type, f.path, what, f.detail),
+        case,
+    }
+}
+
+struct EntryOut {
+    reports: Vec<walk::WalkReport>,
+    violations: Vec<Violation>,
+    values: usize,
+    sample: Value,
+}
+
+fn sweep_entry(e: &reg::Entry, cap: usize) -> EntryOut {
+    let mut vals = vmodel::values::values(&e.ty, cap);
+    let mut seen = BTreeSet::new();
+    vals.retain(|v| seen.insert(v.clone()));
+    let mut out = EntryOut {
+        reports: vec![],
+        violations: vec![],
+        values: vals.len(),
+        sample: Value::Null,
+    };
+    let rust = e.ty.rust();
+    for (vi, v) in vals.iter().enumerate() {
+        let mut rep = None;
+        e.ops.with_introspect(v, &mut |obj| rep = Some(walk::walk_root(obj, TN::Known(&e.ty, Some(v)), STRUCT_DEPTH)));
+        let rep = rep.unwrap_or_else(|| machinery_error("with_introspect did not call back"));
+        if let Some(c) = &rep.cap_hit {
+            machinery_error(&format!("child cap hit on {} value {}: {}", e.id(), v.short(), c));
+        }
+        for f in &rep.findings {
+            let case = json!({"kind": "struct_family", "family": e.family, "index": e.idx, "rust_type": rust, "type": e.ty.describe(),
+                "type_features": e.ty.feature_string(), "value": valjson::to_json(v)});
+            out.violations.push(struct_violation(f, &format!("family:{}", e.family), &format!("{} = {}", rust, v.short()), case));
+        }
+        if vi == vals.len() / 2 {
+            out.sample = json!({"exploration": "structural", "family": e.family, "index": e.idx, "rust_type": rust, "type": e.ty.describe(),
+                "value": valjson::to_json(v), "nodes": rep.nodes, "nodes_with_children": rep.nodes_with_children, "max_children": rep.max_children});
+        }
+        out.reports.push(rep);
+    }
+    out
+}
+
+fn structural(run: &mut Run, thorough: bool) -> StructTotals {
+    let mut tot = StructTotals::default();
+    let entries = reg::all(thorough);
+    let ids: BTreeSet<String> = entries.iter().map(|e| e.id()).collect();
+    if ids.len() != entries.len() {
+        machinery_error("family entries are not distinct");
+    }
+    let cap = if thorough { 256 } else { 64 };
+    let outs: Vec<Result<EntryOut, String>> = entries.par_iter().map(|e| guarded(|| sweep_entry(e, cap))).collect();
+    let n = outs.len();
+    for (pos, (e, o)) in entries.iter().zip(outs).enumerate() {
+        let o = match o {
+            Ok(o) => o,
+            Err(p) => machinery_error(&format!("harness panic while sweeping {} ({}): {}", e.id(), e.ty.rust(), p)),
+        };
+        tot.types += 1;
+        run.count("struct_values", o.values as u64);
+        for r in &o.reports {
+            tot.add(r);
+        }
+        for v in o.violations {
+            run.violation(v);
+        }
+        if n > 0 && (pos == 0 || pos == n / 3 || pos == 2 * n / 3 || pos == n - 1) && !o.sample.is_null() {
+            tot.samples.push(o.sample);
+        }
+    }
+    // hand-written objects
+    let objs = objects::objects();
+    let ids: BTreeSet<&str> = objs.iter().map(|o| o.id).collect();
+    if ids.len() != objs.len() {
+        machinery_error("object ids are not distinct");
+    }
+    let reps: Vec<Result<walk::WalkReport, String>> = objs
+        .par_iter()
+        .map(|o| {
+            guarded(|| {
+                let ty = (o.ty)();
+                let mut rep = None;
+                (o.with)(&mut |obj| {
+                    let tn = match &ty {
+                        Some(t) => TN::Known(t, None),
+                        None => TN::Unknown,
+                    };
+                    rep = Some(walk::walk_root(obj, tn, STRUCT_DEPTH))
+                });
+                rep.expect("object constructor did not call back")
+            })
+        })
+        .collect();
+    for (o, rep) in objs.iter().zip(reps) {
+        let rep = match rep {
+            Ok(r) => r,
+            Err(p) => machinery_error(&format!("harness panic while walking object {}: {}", o.id, p)),
+        };
+        if let Some(c) = &rep.cap_hit {
+            machinery_error(&format!("child cap hit on object {}: {}", o.id, c));
+        }
+        run.count("struct_objects", 1);
+        tot.add(&rep);
+        for f in &rep.findings {
+            let case = json!({"kind": "struct_object", "object": o.id, "description": o.desc});
+            run.violation(struct_violation(f, "object", &format!("object {} ({})", o.id, o.desc), case));
+        }
+        if o.id == "with_maps" || o.id == "vec_10001" {
+            tot.samples.push(json!({"exploration": "structural", "object": o.id, "description": o.desc, "nodes": rep.nodes,
+                "nodes_with_children": rep.nodes_with_children, "max_children": rep.max_children, "findings": rep.findings.len()}));
+        }
+    }
+    tot
+}
+
+#[derive(Default)]
+struct NavTotals {
+    objects: u64,
+    searches: u64,
+    states: u64,
+    states_expanded: u64,
+    states_deep: u64,
+    transitions: u64,
+    index_calls: u64,
+    merged: u64,
+    outcomes: BTreeMap<String, u64>,
+    outcome_by_cmd: BTreeMap<String, u64>,
+    max_frames: usize,
+    max_total_len: usize,
+    max_path: usize,
+    max_alphabet: usize,
+    levels: Vec<u64>,
+    depth_completed: usize,
+    findings_by_oracle: BTreeMap<String, u64>,
+    samples: Vec<Value>,
+}
+
+fn nav_violation(object: &str, desc: &str, f: &nav::NavFinding) -> Violation {
+    let last = f.commands.last().map(|c| c.kind()).unwrap_or("none");
+    Violation {
+        oracle: f.oracle.to_string(),
+        tags: tags(&[
+            ("exploration", "navigation".to_string()),
+            ("object", object.to_string()),
+            ("start", nav::start_name(f.start)),
+            ("last_command", last.to_string()),
+        ]),
+        summary: format!(
+            "object {} ({}), Introspector::{}, commands {}: {}",
+            object,
+            desc,
+            nav::start_name(f.start),
+            Value::Array(f.commands.iter().map(|c| c.to_json()).collect()),
+            f.detail
+        ),
+        case: json!({"kind": "nav", "object": object, "start": f.start, "commands": f.commands.iter().map(|c| c.to_json()).collect::<Vec<_>>()}),
+    }
+}
+
+fn navigation(run: &mut Run, depth: usize) -> NavTotals {
+    let mut tot = NavTotals::default();
+    let objs: Vec<objects::ObjDef> = objects::objects().into_iter().filter(|o| o.nav).collect();
+    tot.objects = objs.len() as u64;
+    let jobs: Vec<(usize, Option<usize>)> = (0..objs.len()).flat_map(|i| nav::STARTS.iter().map(move |s| (i, *s))).collect();
+    let reps: Vec<nav::BfsReport> = jobs.par_iter().map(|(i, s)| nav::bfs(objs[*i].with, *s, depth)).collect();
+    tot.depth_completed = depth;
+    for ((i, start), rep) in jobs.iter().zip(reps) {
+        let o = &objs[*i];
+        tot.searches += 1;
+        tot.states += rep.states as u64;
+        tot.states_expanded += rep.states_expanded as u64;
+        tot.states_deep += rep.states_deep as u64;
+        tot.transitions += rep.transitions;
+        tot.index_calls += rep.index_calls;
+        tot.merged += rep.merged;
+        tot.max_frames = tot.max_frames.max(rep.max_frames);
+        tot.max_total_len = tot.max_total_len.max(rep.max_total_len);
+        tot.max_path = tot.max_path.max(rep.max_path);
+        tot.max_alphabet = tot.max_alphabet.max(rep.max_alphabet);
+        for (l, n) in rep.states_per_level.iter().enumerate() {
+            if tot.levels.len() <= l {
+                tot.levels.resize(l + 1, 0);
+            }
+            tot.levels[l] += *n as u64;
+        }
+        for (k, v) in &rep.outcomes {
+            let name = match k {
+                nav::Outcome::Ok => "Ok".to_string(),
+                nav::Outcome::Err(e) => format!("Err({})", e),
+                nav::Outcome::Panic => "panic".to_string(),
+            };
+            *tot.outcomes.entry(name).or_insert(0) += v;
+        }
+        for (k, v) in &rep.outcome_by_cmd {
+            *tot.outcome_by_cmd.entry(k.clone()).or_insert(0) += v;
+        }
+        for f in &rep.findings {
+            *tot.findings_by_oracle.entry(f.oracle.to_string()).or_insert(0) += 1;
+            run.violation(nav_violation(o.id, o.desc, f));
+        }
+        if (o.id == "top3" && start.is_none()) || (o.id == "dup_keys" && *start == Some(2)) || (o.id == "with_maps" && *start == Some(1)) {
+            if let Some(mut s) = rep.sample.clone() {
+                s["exploration"] = json!("navigation");
+                s["object"] = json!(o.id);
+                s["states"] = json!(rep.states);
+                s["transitions"] = json!(rep.transitions);
+                tot.samples.push(s);
+            }
+        }
+    }
+    tot
+}
+
 fn main() {
-    vcommon::machinery_error("vintro not implemented yet");
+    vcommon::quiet_panics();
+    let args = parse_args();
+    if args.property != "C17" {
+        machinery_error(&format!("vintro does not serve property {}", args.property));
+    }
+    let mut run = Run::new(&args, "model_checking");
+    if let Some(path) = &args.replay {
+        replay(path);
+    }
+    let thorough = run.tier == Tier::Thorough;
+    // wall-clock cap: a hang (e.g. a lock taken twice) is a machinery exit, never a verdict
+    let limit = std::time::Duration::from_secs(if thorough { 3600 } else { 600 });
+    std::thread::spawn(move || {
+        std::thread::sleep(limit);
+        machinery_error("wall-clock cap reached (possible dead-lock inside an Introspect impl or the harness)");
+    });
+
+    let st = structural(&mut run, thorough);
+    let nav_depth = if thorough { 4 } else { 3 };
+    let nv = navigation(&mut run, nav_depth);
+
+    let mut cov = Map::new();
+    cov.insert("states".into(), json!(st.nodes + nv.states));
+    cov.insert("transitions".into(), json!(st.transitions + nv.transitions));
+    cov.insert("traces_validated_against_impl".into(), json!(st.nodes + nv.states_expanded));
+    cov.insert("evaluations".into(), json!(st.nodes + nv.transitions));
+    cov.insert("distinct_nontrivial".into(), json!(st.nodes_with_children + nv.states_deep));
+    cov.insert(
+        "rule".into(),
+        json!(format!(
+            "(a) structural: a state is a distinct (root object, path of child indices) node of an introspection tree, roots = every deduplicated \
+             boundary value of every type of the families types+lib{} plus {} hand-written objects, nodes down to depth {}; non-trivial = the node \
+             serves at least one child. (b) navigation: a state is a distinct (object, Debug form of the Introspector) reached by breadth-first \
+             search over command sequences of length <= {} from Introspector::new() and new_with(0..=3); the alphabet of a state is derived from \
+             the result of `Nothing` in that state (ExpandElement depth 0..=D+1 x observed keys+\"?\" x disambiguator 0..=2, SelectNth depth \
+             0..=D+1 x index 0..=W+1 (boundary representatives for frames wider than 6), Up, Nothing); non-trivial = an expanded state whose \
+             result has at least 2 frames. distinct_nontrivial = nodes with children + such states.",
+            if thorough { "+types_thorough" } else { "" },
+            run.get("struct_objects"),
+            STRUCT_DEPTH,
+            nav_depth
+        )),
+    );
+    // vacuity exposure
+    let mut outcomes: BTreeMap<String, u64> = BTreeMap::new();
+    outcomes.insert("struct:consistent_node".into(), st.nodes_consistent);
+    for (k, v) in &st.findings_by_oracle {
+        outcomes.insert(format!("struct:{}", k), *v);
+    }
+    for (k, v) in &nv.outcomes {
+        outcomes.insert(format!("nav:{}", k), *v);
+    }
+    for (k, v) in &nv.findings_by_oracle {
+        outcomes.insert(format!("nav:{}", k), *v);
+    }
+    cov.insert("distinct_outcomes".into(), json!(outcomes.values().filter(|v| **v > 0).count()));
+    cov.insert("outcomes".into(), json!(outcomes));
+    cov.insert("struct_types".into(), json!(st.types));
+    cov.insert("struct_roots".into(), json!(st.roots));
+    cov.insert("struct_nodes".into(), json!(st.nodes));
+    cov.insert("struct_nodes_with_children".into(), json!(st.nodes_with_children));
+    cov.insert("struct_transitions".into(), json!(st.transitions));
+    cov.insert("struct_depth_bound".into(), json!(STRUCT_DEPTH));
+    cov.insert("struct_max_depth_seen".into(), json!(st.max_depth_seen));
+    cov.insert("struct_children_below_depth_bound_not_visited".into(), json!(st.depth_cut_nodes));
+    cov.insert("struct_max_children".into(), json!(st.max_children));
+    cov.insert("struct_child_cap".into(), json!(walk::CHILD_CAP));
+    cov.insert(
+        "struct_nodes_by_kind".into(),
+        json!(st.by_kind.iter().map(|(k, v)| (k.clone(), json!({"nodes": v.0, "with_children": v.1}))).collect::<Map<String, Value>>()),
+    );
+    cov.insert("nav_objects".into(), json!(nv.objects));
+    cov.insert("nav_searches".into(), json!(nv.searches));
+    cov.insert("nav_states".into(), json!(nv.states));
+    cov.insert("nav_states_expanded".into(), json!(nv.states_expanded));
+    cov.insert("nav_states_with_2plus_frames".into(), json!(nv.states_deep));
+    cov.insert("nav_states_per_level".into(), json!(nv.levels));
+    cov.insert("nav_transitions".into(), json!(nv.transitions));
+    cov.insert("nav_transitions_merged_into_known_state".into(), json!(nv.merged));
+    cov.insert("nav_total_index_calls".into(), json!(nv.index_calls));
+    cov.insert("nav_bfs_depth_completed".into(), json!(nv.depth_completed));
+    cov.insert("nav_max_frames".into(), json!(nv.max_frames));
+    cov.insert("nav_max_total_len".into(), json!(nv.max_total_len));
+    cov.insert("nav_max_path_len".into(), json!(nv.max_path));
+    cov.insert("nav_max_alphabet".into(), json!(nv.max_alphabet));
+    cov.insert("nav_outcome_by_command".into(), json!(nv.outcome_by_cmd));
+    let mut samples = st.samples.clone();
+    samples.extend(nv.samples.clone());
+    cov.insert("samples".into(), Value::Array(samples));
+    cov.insert("exhaustive".into(), json!(true));
+
+    // sanity of the machinery itself: an exploration that saw nothing is not a verdict
+    if st.nodes_with_children == 0 || nv.states_deep == 0 || nv.outcomes.len() < 3 {
+        machinery_error("vacuous exploration (no node with children / no deep navigation state / fewer than 3 navigation outcomes)");
+    }
+    let assumptions = vec![
+        "objects are immutable during a search and do_introspect is deterministic, so the Debug form of the Introspector (all of its fields) is a sound canonical state".to_string(),
+        "value dimension = boundary lists and bounded products of engine/model (cap 64 quick / 256 thorough per type); structure below depth 4 is not visited".to_string(),
+        "std HashMap/HashSet of the generated family types use RandomState: which entry is child i varies between runs, the verdict (counts per node) does not; hand-written objects use a fixed hasher".to_string(),
+        "built on a stable compiler: the cfg(feature=\"nightly\") specialisations of the map impls are not compiled and not checked".to_string(),
+    ];
+    run.finish(cov, assumptions)
+}
+
+fn replay(path: &std::path::Path) -> ! {
+    let text = std::fs::read_to_string(path).unwrap_or_else(|e| machinery_error(&format!("replay file: {}", e)));
+    let doc: Value = vcommon::serde_json::from_str(&text).unwrap_or_else(|e| machinery_error(&format!("replay json: {}", e)));
+    let case = &doc["case"];
+    let path_of = |case: &Value| -> Vec<usize> { case["path"].as_array().map(|a| a.iter().filter_map(|x| x.as_u64().map(|x| x as usize)).collect()).unwrap_or_default() };
+    let mut failures = 0usize;
+    let mut report = |rep: walk::WalkReport| {
+        println!("replay: node checked, {} consecutive children at most, {} finding(s)", rep.max_children, rep.findings.len());
+        for f in &rep.findings {
+            println!("REPLAY-FAIL oracle={} node_type={} relation={} {}", f.oracle, f.node_type, f.relation, f.detail);
+            failures += 1;
+        }
+    };
+    match case["kind"].as_str() {
+        Some("struct_family") => {
+            let fam = case["family"].as_str().unwrap_or("");
+            let rust = case["rust_type"].as_str().unwrap_or("");
+            let entries = reg::family(fam);
+            let Some(e) = entries.iter().find(|e| e.ty.rust() == rust) else {
+                machinery_error(&format!("replay: type {} not in family {} (thorough-only families need --tier thorough)", rust, fam));
+            };
+            let v = valjson::from_json(&case["value"]);
+            let p = path_of(case);
+            println!("replay: {} = {} node path {:?}", rust, v.short(), p);
+            e.ops.with_introspect(&v, &mut |obj| walk::check_at_path(obj, TN::Known(&e.ty, Some(&v)), &p, 0, &mut report));
+        }
+        Some("struct_object") => {
+            let id = case["object"].as_str().unwrap_or("");
+            let objs = objects::objects();
+            let Some(o) = objs.iter().find(|o| o.id == id) else {
+                machinery_error(&format!("replay: unknown object {}", id));
+            };
+            let p = path_of(case);
+            println!("replay: object {} ({}) node path {:?}", o.id, o.desc, p);
+            let ty = (o.ty)();
+            (o.with)(&mut |obj| {
+                let tn = match &ty {
+                    Some(t) => TN::Known(t, None),
+                    None => TN::Unknown,
+                };
+                walk::check_at_path(obj, tn, &p, 0, &mut report)
+            });
+        }
+        Some("nav") => {
+            let id = case["object"].as_str().unwrap_or("");
+            let objs = objects::objects();
+            let Some(o) = objs.iter().find(|o| o.id == id) else {
+                machinery_error(&format!("replay: unknown object {}", id));
+            };
+            let start = case["start"].as_u64().map(|k| k as usize);
+            let cmds: Vec<nav::Cmd> = case["commands"]
+                .as_array()
+                .map(|a| a.iter().map(|c| nav::Cmd::from_json(c).unwrap_or_else(|| machinery_error(&format!("replay: bad command {}", c)))).collect())
+                .unwrap_or_default();
+            println!("replay: object {} ({})", o.id, o.desc);
+            failures += nav::replay(o.with, start, &cmds);
+        }
+        k => machinery_error(&format!("replay: unknown case kind {:?}", k)),
+    }
+    println!("replay: {} violation(s) reproduced", failures);
+    std::process::exit(if failures > 0 { 1 } else { 0 })
 }
